@@ -15,7 +15,7 @@ from ..sysdriver import gen_model, run_tlc_judge
 from ..tlc import MachineryError
 from ..util import pmap, quiet, split
 
-OPTS = {'storage': ['dense', 'rowscols', 'coo', 'csr', 'csc', 'diag', 'matfree'], 'cyc_frac': .3, 'voi_scaling': False}
+OPTS = {'storage': ['dense', 'rowscols', 'coo', 'csr', 'csc', 'diag', 'matfree'], 'cyc_frac': .3, 'voi_scaling': False, 'bil': .2}
 
 
 def ivec(rng, n):
@@ -141,7 +141,7 @@ def _worker(seeds):
 
 def run(ctx):
     quick = ctx.tier == 'quick'
-    n = 140 if quick else 2000
+    n = 200 if quick else 2600
     base = 5000011 * (1 + ctx.seed % 1000)
     res = [r for rs in pmap(_worker, [c for c in split(list(range(base, base + n)), 48) if c]) for r in rs]
     for r in res:
